@@ -200,14 +200,14 @@ def gen_case(rng, prof):
         d['quad'] = [poly(rng, all_sig, (1, 2), 2)]
     # algebraic variables (DC only)
     if kind == 'dc' and on('dae', 0.0):
-        nzv = 1
-        d['algs'] = [nzv]
+        # one scalar algebraic variable by default; a profile may ask for several symbols / vector-valued ones
+        d['algs'] = list(rng.choice(prof['alg_layouts'])) if 'alg_layouts' in prof else [1]
         s = symbols(d)
-        z = s['z'][0]
-        # index-1: alg = c*z + poly(x,u,...) ; ode gets a z term
-        d['alg'] = [('+', ('*', E.C(coef(rng)), z), poly(rng, all_sig, (1, 2), 2))]
-        j = rng.randrange(nx)
-        d['ode'][j] = ('+', d['ode'][j], ('*', E.C(coef(rng)), z))
+        # index-1: alg_r = c*z_r + poly(x,u,...) ; the ode gets a term in every z component
+        d['alg'] = [('+', ('*', E.C(coef(rng)), z), poly(rng, all_sig, (1, 2), 2)) for z in s['z']]
+        for z in s['z']:
+            j = rng.randrange(nx)
+            d['ode'][j] = ('+', d['ode'][j], ('*', E.C(coef(rng)), z))
     # horizon
     tk = rng.choice(prof.get('horizon', ['num']))
     if tk == 'num':
